@@ -120,6 +120,14 @@ func C12(run *report.Run) {
 		specs = append(specs, c12spec{ID: fmt.Sprintf("mapfat%d", v), Spec: mapFat(v), Client: true, DNE: true, Cors: true})
 	}
 	specs = append(specs, c12spec{ID: "mapfat0-flag", Spec: mapFat(0), Client: false, DNE: false, BasePath: "/flag"})
+	// a small document whose schemas carry several extension keys: goag's own next to the foreign
+	// look-alikes a spec shared with other generators has
+	specs = append(specs, c12spec{ID: "extfat", Client: true, DNE: true, Spec: []byte(`{"openapi":"3.0.3","info":{"title":"t","version":"1","x-b":1,"x-a":2},
+ "paths":{"/p":{"x-z":1,"x-y":2,"get":{"x-m":1,"x-k":2,"parameters":[{"name":"q","in":"query","x-b":1,"x-a":2,"schema":{"type":"string","x-goag-go-type":"pkg.Q","x-go-type":"other.Q","x-order":3}}],
+   "responses":{"200":{"description":"r","x-b":1,"x-a":2,"content":{"application/json":{"schema":{"$ref":"#/components/schemas/Holder"}}}},"default":{"description":"d"}}}}},
+ "components":{"schemas":{
+   "Custom":{"type":"string","x-goag-go-type":"pkg.Custom","x-go-type":"other.Custom","x-go-name":"CustomName","x-order":1,"x-nullable":false,"x-goag-go-time-format":"2006-01-02","x-go-time-format":"rfc3339"},
+   "Holder":{"type":"object","x-b":1,"x-a":2,"properties":{"custom":{"$ref":"#/components/schemas/Custom"},"t":{"type":"string","format":"date-time","x-goag-go-time-format":"2006-01-02","x-go-time-format":"rfc822","x-a":1}}}}}}`)})
 	pick := map[string]int{}
 	for _, c := range C01Cells() {
 		fam := c.Attrs["fam"]
